@@ -3,6 +3,7 @@ import Tfv.Proofs.InferConstrMain
 import Tfv.Proofs.InferNoInternalTop
 import Tfv.Spec.HistoryShiftConstr
 import Tfv.Proofs.ResolvedElimCheck
+import Tfv.Proofs.WildConstr
 /-!
 # tfv-inv — the hypotheses of the engine theorems, checked on the runs the correspondence check makes
 
@@ -18,7 +19,7 @@ Input: the protocol lines of the driver (`lang`, `infer`; other lines are ignore
 `OkStoreC` and `Chains` are invariants of the engine (theorems `…_keeps`), so x and y can only be T unless a checker is
 incomplete; `Acyclic` is a hypothesis of the witness theorems that the engine does not establish, so z says whether those
 theorems applied to the run. A fourth character reports `historyStable` (T/F, `-` = arguments not concrete): the decidable hypothesis under
-which `C16s_history_independent_partial` says the run behind ANY history is the fresh run shifted. Two numbers follow: the resolved
+which `C16s_history_independent_partial` says the run behind ANY history is the fresh run shifted. A fifth character is the wildcard certificate `subsStrictB` on the last store reached (`C03w_certificate_sound`). Two numbers follow: the resolved
 elimination records of the final store and how many of them the verified monitor `elimHoldsB` accepts (`elimMonitor`).
 -/
 namespace Tfv
@@ -26,6 +27,10 @@ open Tfv.C03C Tfv.C03P
 
 /-- (OkStoreC, Chains, Acyclic) -/
 def invOk (L : Lang) (σ : Store) : Bool × Bool × Bool := (okStoreCB L σ, Tfv.C17E.chainsB σ, acyclicB σ)
+
+/-- the certificate of `C03w_certificate_sound` (every subtype constraint marked fulfilled passes the matcher with all wildcard flags
+cleared): sufficient, not necessary, for the marked constraints of a store WITH wildcards to hold under every solution -/
+def wildCert (L : Lang) (σ : Store) : Bool := subsStrictB L σ
 
 def and3 (a b : Bool × Bool × Bool) : Bool × Bool × Bool := (a.1 && b.1, a.2.1 && b.2.1, a.2.2 && b.2.2)
 
@@ -45,17 +50,17 @@ def elimMonitor (L : Lang) (σ : Store) : Nat × Nat :=
       if resolvedB σ r && as.all (resolvedB σ) then (acc.1 + 1, acc.2 + (if Tfv.C03E.elimHoldsB L σ c then 1 else 0)) else acc
     | _ => acc) (0, 0)
 
-def runInferInv (L : Lang) (s : Schema) (args : List (Nat × Term)) : Nat × Bool × Bool × Bool × Nat × Nat :=
+def runInferInv (L : Lang) (s : Schema) (args : List (Nat × Term)) : Nat × Bool × Bool × Bool × Nat × Nat × Bool :=
   match instantiate L engineFuel {} s with
-  | .error _ => (0, true, true, true, 0, 0)
+  | .error _ => (0, true, true, true, 0, 0, true)
   | .ok (σ, f) =>
-    let rec go (σ : Store) (f : Term) (n : Nat) (ok : Bool × Bool × Bool) : List (Nat × Term) → Nat × Bool × Bool × Bool × Nat × Nat
-      | [] => let m := elimMonitor L σ; (n, ok.1, ok.2.1, ok.2.2, m.1, m.2)
+    let rec go (σ : Store) (f : Term) (n : Nat) (ok : Bool × Bool × Bool) : List (Nat × Term) → Nat × Bool × Bool × Bool × Nat × Nat × Bool
+      | [] => let m := elimMonitor L σ; (n, ok.1, ok.2.1, ok.2.2, m.1, m.2, wildCert L σ)
       | (nw, a) :: rest =>
         let base := σ.vars.length
         let σ1 := allocVars σ 0 nw
         match applyT L engineFuel σ1 f (a.shift base) with
-        | .error _ => (n, ok.1, ok.2.1, ok.2.2, 0, 0)
+        | .error _ => (n, ok.1, ok.2.1, ok.2.2, 0, 0, wildCert L σ)
         | .ok (σ2, r) => go σ2 r (n + 1) (and3 ok (invOk L σ2)) rest
     go σ f 1 (invOk L σ) args
 
@@ -78,11 +83,11 @@ partial def invLoop (h : IO.FS.Stream) (out : IO.FS.Stream) (st : DState) : IO U
     | .list (.atom "infer" :: s :: args) =>
       match Sexp.schema? s, args.mapM Sexp.arg? with
       | some s, some args =>
-        let (n, a, b, c, em, eh) := runInferInv st.lang s args
+        let (n, a, b, c, em, eh, wc) := runInferInv st.lang s args
         let f (x : Bool) := if x then "T" else "F"
         let h := match historyStable st.lang s args with
           | some true => "T" | some false => "F" | none => "-"
-        out.putStrLn s!"inv {n} {f a}{f b}{f c}{h} {em} {eh}"
+        out.putStrLn s!"inv {n} {f a}{f b}{f c}{h}{f wc} {em} {eh}"
       | _, _ => out.putStrLn "bad-line"
       invLoop h out st
     | .list (.atom "lang" :: _) =>
